@@ -235,6 +235,7 @@ RTZ = z3.RTZ()
 def strip_path(ty):
     """normalise a printed type: drop module paths and lifetimes ('std::vec::Vec<value::JsValue>' -> 'Vec<JsValue>')"""
     ty = ty.strip()
+    ty = re.sub(r'<impl [^<>]*>::', '', ty)
     ty = re.sub(r"'\w+\s*,\s*", '', ty)
     ty = re.sub(r"<'\w+>", '', ty)
     ty = re.sub(r"&'\w+ ", '&', ty)
